@@ -94,8 +94,8 @@ impl ByteReader {
 //@@ fn file=fe2o3-amqp/src/util/mod.rs impl=`impl io::Read for ByteReader<Payload>` name=read
 //@@ attr #[verifier::loop_isolation(false)]
 //@@ ret Result<usize, IoError>
-//@@ subst `Buf::copy_to_slice(&mut partial, &mut dst[nbytes_read..])` => `{ let __e = dst.len(); copy_to_slice_at(&mut partial, dst, nbytes_read, __e) }` rule=R9
-//@@ subst `Buf::copy_to_slice(payload, &mut dst[nbytes_read..nbytes_read + remaining])` => `copy_to_slice_at(payload, dst, nbytes_read, nbytes_read + remaining)` rule=R9
+//@@ subst `Buf::copy_to_slice(&mut partial, &mut dst[__E1..])` => `{ let __e = dst.len(); copy_to_slice_at(&mut partial, dst, __E1, __e) }` rule=R9
+//@@ subst `Buf::copy_to_slice(payload, &mut dst[__E1..__E2])` => `copy_to_slice_at(payload, dst, __E1, __E2)` rule=R9
 //@@ spec
     requires flat(old(self).inner@).len() < usize::MAX,
     ensures
